@@ -82,7 +82,7 @@ def _worker_init(module_name: str) -> None:
     importlib.import_module(module_name)
 
 
-def _worker_run(args):
+def _worker_run(args, _retry=True):
     module_name, fn, params = args
     mod = importlib.import_module(module_name)
     t0 = time.time()
@@ -102,6 +102,10 @@ def _worker_run(args):
                 where = f"{fr.filename.split('/sopht/')[-1]}:{fr.name}"
                 break
         if isinstance(e, HarnessError) or where is None or isinstance(e, (KeyboardInterrupt, SystemExit, MemoryError)):
+            if _retry and not isinstance(e, (HarnessError, KeyboardInterrupt, SystemExit)):
+                # infrastructure hiccup (e.g. two workers racing on a numba / pystencils cache file): one retry
+                time.sleep(0.5)
+                return _worker_run(args, _retry=False)
             return ("harness", fn, params, {"error": f"{type(e).__name__}: {e}", "tb": traceback.format_exc()})
         # an exception raised from repository code inside an explored case is an observation (DESIGN 3.5)
         res = CaseResult(
